@@ -34,6 +34,15 @@ __all__ = [
 ]
 
 
+def _is_group_key(parser, key: str) -> bool:
+    """Whether key is, or is a parent of, the nested key of a group, even if the group has no arguments."""
+    root_key, *sub_key = split_key_root(key)
+    for action in filter_default_actions(parser._actions):
+        if isinstance(action, _ActionSubCommands) and root_key in action._name_parser_map:
+            return not sub_key or _is_group_key(action._name_parser_map[root_key], sub_key[0])
+    return any(g == key or g.startswith(key + ".") for g in parser.groups or {})
+
+
 def _is_branch_key(parser, key: str) -> bool:
     root_key = split_key_root(key)[0]
     for action in filter_default_actions(parser._actions):
